@@ -16,6 +16,9 @@ def toHexAux : Nat → Nat → List Char → List Char
   | fuel+1, n, acc => if n < 16 then hexDigit n :: acc else toHexAux fuel (n / 16) (hexDigit (n % 16) :: acc)
 def toHex (n : Nat) : List Char := toHexAux 16 n []
 
+/-- `f"{c:04x}"` (glyphmap.py csv_line) -/
+def hex4 (n : Nat) : List Char := List.replicate (4 - (toHex n).length) '0' ++ toHex n
+
 def isAsciiLetter (cp : Nat) : Bool := (65 ≤ cp && cp ≤ 90) || (97 ≤ cp && cp ≤ 122)
 
 /-- `_name(cp)`: the ASCII letter itself, else lowercase hex -/
